@@ -1508,6 +1508,37 @@ void MathExplorer::run_all()
             break;
         run_fn<T>(f);
     }
+    if (mode_ticks && !expired)
+    {
+        // C14, pow with an integer exponent: every entry of the exponent table of each integer type (0, +-1, small, 2^k -+ 1,
+        // the extremes of the type and their neighbours and halves) x a value alphabet; the square-and-multiply loop
+        // makes one hooked iteration per bit of the exponent, so 64 bounds every type
+        static const d2 zero2 = [](double, double) { return 0.0; };
+        static const l2 zero2l = [](long double, long double) { return 0.0L; };
+        for (const char* nm : { "ipow.i16", "ipow.i32", "ipow.i64", "ipow.u16", "ipow.u32", "ipow.u64" })
+        {
+            MFun f { nm, 2, nullptr, zero2, nullptr, zero2l, nullptr, nullptr, 1e30, 1e30, R_POW, 64, 64, false, false, 0, nm };
+            if (!only.empty() && !only.count(nm))
+                continue;
+            constexpr int elem = std::is_same<T, float>::value ? XV_F32 : XV_F64;
+            auto impls = impls_of(nm, elem, "M");
+            if (impls.empty())
+                continue;
+            Space<T> S;
+            std::vector<uint64_t> xs;
+            for (double v : { 0.0, -0.0, 1.0, -1.0, 2.0, -2.0, 0.5, -0.5, 1.0000001, 0.9999999, 3.0, 10.0, 1e10, 1e-10, 1e30, 1e-30, (double)std::numeric_limits<T>::max(), (double)std::numeric_limits<T>::min(),
+                              (double)std::numeric_limits<T>::denorm_min(), (double)std::numeric_limits<T>::infinity(), -(double)std::numeric_limits<T>::infinity(), (double)std::numeric_limits<T>::quiet_NaN(), 1.5, -1.5 })
+                xs.push_back(to_bits<T>((T)v));
+            for (int k = 0; k < 40; ++k)
+                for (int rep = 0; rep < 64; ++rep) // 64 consecutive points share an exponent: whole batches of every width
+                {
+                    S.pts.push_back(xs[(size_t)rep % xs.size()]);
+                    S.pts2.push_back(to_bits<T>((T)k));
+                }
+            S.label = "40 exponents of the type (0, +-1, small, 2^k -+ 1, the extremes, their neighbours and halves) x 24 values";
+            run_fn_space<T>(f, S, impls, 2);
+        }
+    }
 }
 
 int main(int argc, char** argv)
